@@ -181,6 +181,9 @@ func mk(named map[string]interface{}, list []interface{}) interface{} {
 	if len(named) == 0 {
 		named = nil
 	}
+	if len(list) == 0 {
+		list = nil
+	}
 	return splitNode{Named: named, List: list}
 }
 
